@@ -128,3 +128,190 @@ Proof.
   intros Hn Hi. rewrite shard_is_filter by assumption. rewrite filter_In.
   unfold idx. rewrite Nat.eqb_eq. split; intros [H1 H2]; (split; [exact H1|lia]).
 Qed.
+
+(* ------------------------------------------------------------ dedupe commutes with sharding *)
+Section Dedupe.
+  Variable K : Type.
+  Variable kf : list Z -> K.               (* the dedupe key of a line *)
+  Variable keq : K -> K -> bool.
+  Hypothesis keq_spec : forall a b, keq a b = true <-> a = b.
+
+  (* C01's specification: keep the first line of every key *)
+  Fixpoint dedupe_aux (seen : list K) (ls : list (list Z)) : list (list Z) :=
+    match ls with
+    | [] => []
+    | l :: r => if existsb (keq (kf l)) seen then dedupe_aux seen r
+                else l :: dedupe_aux (kf l :: seen) r
+    end.
+  Definition dedupe (ls : list (list Z)) : list (list Z) := dedupe_aux [] ls.
+
+  Lemma dedupe_filter (P : list Z -> bool) :
+    (forall l1 l2, kf l1 = kf l2 -> P l1 = P l2) ->
+    forall ls seenP seenAll,
+      (forall l, P l = true -> existsb (keq (kf l)) seenP = existsb (keq (kf l)) seenAll) ->
+      dedupe_aux seenP (filter P ls) = filter P (dedupe_aux seenAll ls).
+  Proof.
+    intros HP. induction ls as [|l ls IH]; intros seenP seenAll Hinv; [reflexivity|].
+    simpl. destruct (P l) eqn:EP.
+    - simpl. rewrite (Hinv l EP).
+      destruct (existsb (keq (kf l)) seenAll) eqn:ES.
+      + apply IH. exact Hinv.
+      + simpl. rewrite EP. f_equal. apply IH.
+        intros l' HP'. simpl. rewrite (Hinv l' HP'). reflexivity.
+    - destruct (existsb (keq (kf l)) seenAll) eqn:ES.
+      + apply IH. exact Hinv.
+      + simpl. rewrite EP. apply IH.
+        intros l' HP'. simpl. rewrite (Hinv l' HP').
+        destruct (keq (kf l') (kf l)) eqn:EK; [|reflexivity].
+        apply keq_spec in EK. rewrite (HP _ _ EK) in HP'. congruence.
+  Qed.
+
+  (* lines with equal dedupe key go to the same shard (same -f/-d for both tools,
+     no hash collision between different keys) => deduplicating every shard gives,
+     as a multiset, the deduplicated input *)
+  Theorem dedupe_commutes keyhash n ls : 0 < n ->
+    (forall l1 l2, kf l1 = kf l2 -> index keyhash n l1 = index keyhash n l2) ->
+    Permutation (concat (map dedupe (shard keyhash n ls))) (dedupe ls).
+  Proof.
+    intros Hn Hk. rewrite shard_eq_map by exact Hn. rewrite map_map.
+    assert (E : map (fun i => dedupe (filter (fun l => Nat.eqb (idx keyhash n l) i) ls)) (seq 0 (N.to_nat n)) =
+                map (fun i => filter (fun l => Nat.eqb (idx keyhash n l) i) (dedupe ls)) (seq 0 (N.to_nat n))).
+    { apply map_ext. intros i. unfold dedupe. apply dedupe_filter.
+      - intros l1 l2 H. unfold idx. rewrite (Hk l1 l2 H). reflexivity.
+      - intros l _. reflexivity. }
+    rewrite E. apply classes_permutation. intros l _. apply idx_lt. exact Hn.
+  Qed.
+End Dedupe.
+
+(* ------------------------------------------------------------ blocks handed to the writer *)
+Lemma chunks_concat size : (0 < size)%nat -> forall fuel bs, (length bs < fuel)%nat ->
+  concat (chunks fuel size bs) = bs.
+Proof.
+  intros Hs. induction fuel as [|fuel IH]; intros bs Hf; [lia|].
+  destruct bs as [|b bs]; [reflexivity|].
+  cbn [chunks]. cbn [concat]. rewrite IH.
+  - apply firstn_skipn.
+  - rewrite skipn_length. simpl length in *. lia.
+Qed.
+
+Lemma blocks_concat bs : concat (blocks bs) = bs.
+Proof.
+  unfold blocks. apply chunks_concat; [|lia].
+  assert (0 < kBlockSize) by (vm_compute; reflexivity). lia.
+Qed.
+
+(* ------------------------------------------------------------ output names *)
+Definition dvalN (l : list Z) : Z := fold_left (fun a b => a * 10 + (b - 48))%Z l 0%Z.
+
+Lemma dvalN_app a b : dvalN (a ++ b) = fold_left (fun x y => x * 10 + (y - 48))%Z b (dvalN a).
+Proof. unfold dvalN. apply fold_left_app. Qed.
+
+Lemma dvalN_zeros k : forall l, dvalN (repeat 48%Z k ++ l) = dvalN l.
+Proof.
+  intros l. rewrite dvalN_app.
+  assert (Hz : dvalN (repeat 48%Z k) = 0%Z).
+  { unfold dvalN. induction k as [|k IH]; [reflexivity|]. simpl. exact IH. }
+  rewrite Hz. reflexivity.
+Qed.
+
+Lemma dec_loop_spec : forall fuel x acc, x < 10 ^ N.of_nat fuel ->
+  exists ds, dec_loop fuel x acc = ds ++ acc /\ dvalN ds = Z.of_N x.
+Proof.
+  induction fuel as [|fuel IH]; intros x acc Hx.
+  - simpl in Hx. assert (x = 0) by lia. subst. exists []. split; reflexivity.
+  - cbn [dec_loop].
+    assert (Hpow : 10 ^ N.of_nat (S fuel) = 10 * 10 ^ N.of_nat fuel).
+    { rewrite Nat2N.inj_succ. rewrite N.pow_succ_r'. reflexivity. }
+    destruct (x / 10 =? 0) eqn:E.
+    + exists [(48 + Z.of_N (x mod 10))%Z]. split; [reflexivity|].
+      unfold dvalN. cbn [fold_left]. apply N.eqb_eq in E.
+      pose proof (N.div_mod x 10 ltac:(lia)). lia.
+    + apply N.eqb_neq in E.
+      destruct (IH (x / 10) ((48 + Z.of_N (x mod 10))%Z :: acc)) as [ds [H1 H2]].
+      { rewrite Hpow in Hx. apply N.div_lt_upper_bound; lia. }
+      exists (ds ++ [(48 + Z.of_N (x mod 10))%Z]). split.
+      * rewrite H1. rewrite <- app_assoc. reflexivity.
+      * rewrite dvalN_app. cbn [fold_left]. rewrite H2.
+        pose proof (N.div_mod x 10 ltac:(lia)). lia.
+Qed.
+
+Lemma pad_value w i : i < 10 ^ 40 -> dvalN (pad w i) = Z.of_N i.
+Proof.
+  intros Hi. unfold pad. rewrite dvalN_zeros. unfold decimal.
+  destruct (dec_loop_spec 40 i [] Hi) as [ds [H1 H2]]. rewrite H1, app_nil_r. exact H2.
+Qed.
+
+Lemma NoDup_map_inj_in {A B} (f : A -> B) (l : list A) :
+  (forall x y, In x l -> In y l -> f x = f y -> x = y) -> NoDup l -> NoDup (map f l).
+Proof.
+  intros Hinj H. induction H as [|a l Hnin H IH]; [constructor|].
+  simpl. constructor.
+  - intros Hin. apply in_map_iff in Hin. destruct Hin as [y [Hy Hyl]].
+    assert (y = a) by (apply Hinj; [right; exact Hyl|left; reflexivity|exact Hy]).
+    subst. contradiction.
+  - apply IH. intros x y Hx Hy. apply Hinj; right; assumption.
+Qed.
+
+(* the names of --prefix p --number n are pairwise different *)
+Theorem names_distinct prefix number : number < 10 ^ 40 -> NoDup (names prefix number).
+Proof.
+  intros Hn. unfold names. apply NoDup_map_inj_in.
+  - intros i j Hi Hj H. apply in_seq in Hi. apply in_seq in Hj.
+    apply app_inv_head in H.
+    assert (E : dvalN (pad (digits_of number) (N.of_nat i)) = dvalN (pad (digits_of number) (N.of_nat j))) by (rewrite H; reflexivity).
+    rewrite !pad_value in E by lia. lia.
+  - apply seq_NoDup.
+Qed.
+
+(* ------------------------------------------------------------ every output file is valid *)
+From PP Require Import Compress.CompressDefs Compress.CompressProofs.
+
+Lemma write_plain_blocks bs : write_plain (map OpWrite (blocks bs)) = bs.
+Proof.
+  unfold write_plain. rewrite flat_map_concat_map, map_map. simpl.
+  rewrite map_id. apply blocks_concat.
+Qed.
+
+(* the writer thread of shard i hands the shard's bytes to WriteCompressed in
+   kBlockSize pieces and flushes once at the end (also when there is nothing):
+   by C15 the file is a non-empty sequence of complete members expanding to
+   exactly the shard's lines *)
+Theorem shard_files_valid :
+  forall (world estate : Type) (enew : world -> kind -> estate * world)
+         (ereset : kind -> estate -> estate)
+         (ecall : kind -> estate -> Z -> list Z -> N -> cres estate)
+         (member : kind -> list Z -> list Z -> Prop)
+         (EInv : kind -> estate -> list Z -> list Z -> Prop) (epend : estate -> nat),
+    (forall k m p, member k m p -> starts_with (magic_of k) m = true) ->
+    (forall w k, EInv k (fst (enew w k)) [] []) ->
+    (forall k st, EInv k (ereset k st) [] []) ->
+    ecall_run_contract estate ecall EInv epend ->
+    ecall_finish_contract estate ecall member EInv epend ->
+    forall (keyhash : list Z -> N) (n : N) (input : list Z) (k : kind) (w : world) (i : nat),
+      k <> KXz ->
+      let content := nth i (shard_tool keyhash n input) [] in
+      exists f0 file,
+        (forall fuel, (f0 <= fuel)%nat ->
+           write_session world estate enew ereset ecall fuel k w (map OpWrite (blocks content)) = FileOk file) /\
+        kstream member k file content /\ file <> [].
+Proof.
+  intros world estate enew ereset ecall member EInv epend Hm He Hr Hrun Hfin keyhash n input k w i Hk content.
+  destruct (write_then_decode_proof world estate enew ereset ecall member EInv epend Hm He Hr Hrun Hfin
+              k w (map OpWrite (blocks content)) Hk) as [f0 [file [HW [Hks Hne]]]].
+  exists f0, file. rewrite write_plain_blocks in Hks. auto.
+Qed.
+
+(* names in index order are strictly increasing as byte strings: boolean checker,
+   used for the bounded evidence below (the general proof is not done) *)
+Fixpoint lex_ltb (a b : list Z) : bool :=
+  match a, b with
+  | [], [] => false
+  | [], _ :: _ => true
+  | _ :: _, [] => false
+  | x :: a', y :: b' => (x <? y)%Z || ((x =? y)%Z && lex_ltb a' b')
+  end.
+Fixpoint sortedb (l : list (list Z)) : bool :=
+  match l with
+  | a :: ((b :: _) as r) => lex_ltb a b && sortedb r
+  | _ => true
+  end.
